@@ -14,7 +14,7 @@ from vmon.libutil import monitored, xtce_element
 
 LEVEL = "exploration"
 SHARDS = {"quick": 16, "thorough": 16}
-MUST = ["form.comparison", "form.condition-value", "form.condition-param", "form.boolexpr", "form.list", "form.lookup",
+MUST = ["history.selfref_first", "history.evaluated_twice", "form.comparison", "form.condition-value", "form.condition-param", "form.boolexpr", "form.list", "form.lookup",
         "route.ctor", "route.xml", "truth.true", "truth.false", "operand.falsy", "operand.int-vs-float", "spellings.all"]
 RULE = ("case = (criteria IR, assignment of (value, raw_value) to the referenced parameters, construction route); the "
         "library's evaluate() result must be the bool the model computes. Enumerated completely: all 16 operator "
@@ -102,6 +102,20 @@ def judge(ctx, form, obj, libobj, pkt, env, route, sig, current=None, shape=""):
     except ref.DontCare:
         return
     ctx.count("truth.true" if exp else "truth.false")
+    # evaluation history on the SAME criteria object: criteria objects are shared (one ContextMatch serves every parameter of a
+    # type; one definition serves every packet), so an earlier evaluation must not change a later one
+    hist = ""
+    hsel = ctx.counters["evaluations"] % 5
+    if hsel == 1 and isinstance(obj, ir.Comparison) and current is None:
+        from space_packet_parser import packets as _P
+        for cur in (1, 0.5):
+            monitored(libobj.evaluate, _P.CCSDSPacket(), cur)      # self-referencing use: parameter not in the packet yet
+        hist = "/after-self-referencing-evaluation"
+        ctx.count("history.selfref_first")
+    elif hsel == 3:
+        monitored(libobj.evaluate, pkt, current) if current is not None else monitored(libobj.evaluate, pkt)
+        hist = "/second-evaluation"
+        ctx.count("history.evaluated_twice")
     step = monitored(libobj.evaluate, pkt, current) if current is not None else monitored(libobj.evaluate, pkt)
     got = step.value
     if isinstance(obj, tuple) and step.exc is None:
@@ -110,7 +124,7 @@ def judge(ctx, form, obj, libobj, pkt, env, route, sig, current=None, shape=""):
            "route": route, "expected": exp, "got": repr(step.value), "exception": repr(step.exc) if step.exc else None}
     if sig:
         ctx.sig(form, route, shape, *sig)
-    feats = features(obj, env, route)
+    feats = features(obj, env, route) + hist
     if step.exc is not None:
         ctx.violation(f"{form}/exception/{type(step.exc).__name__}/{feats}",
                       f"evaluate raised {type(step.exc).__name__} where the relation has truth value {exp}: {step.exc}", wit)
